@@ -330,6 +330,12 @@ static void write_cfg(const char *hex) {
 }
 
 static void handler_dummy(int s) { (void)s; }
+/* before privileges are dropped: the work directory and what is in it stay usable for the new identity (the harness keeps rewriting snoopy.ini) */
+static void open_up_workdir(void) {
+    char p[3100]; if (chmod(W, 0777)) {}
+    snprintf(p, sizeof p, "%s/snoopy.ini", W); { int fd = open(p, O_WRONLY | O_CREAT | O_CLOEXEC, 0666); if (fd >= 0) close(fd); } if (chmod(p, 0666)) {}
+    if (chmod(path_sock, 0666)) {} if (chmod(path_devlog, 0666)) {} if (chmod(path_log, 0666)) {} if (chmod(path_log2, 0666)) {}
+}
 
 int main(int argc, char **argv) {
     if (getenv("VERIF_NOASLR") && !getenv("VERIF_NOASLR_DONE")) {
@@ -388,8 +394,8 @@ int main(int argc, char **argv) {
         else if (!strcmp(tok[0], "sighandler")) { struct sigaction sa; memset(&sa, 0, sizeof sa); sa.sa_handler = handler_dummy; sigaction(atoi(tok[1]), &sa, NULL); }
         else if (!strcmp(tok[0], "openfd")) { int fd = open("/dev/null", O_RDONLY | (atoi(tok[1]) ? O_CLOEXEC : 0)); (void)fd; }
         else if (!strcmp(tok[0], "chdir")) { char *p = mkstr(tok[1]); if (chdir(p)) perror("chdir"); free(p); }
-        else if (!strcmp(tok[0], "setresuid")) { if (setresuid(atol(tok[1]), atol(tok[2]), atol(tok[3]))) perror("setresuid"); }
-        else if (!strcmp(tok[0], "setresgid")) { setgroups(0, NULL); if (setresgid(atol(tok[1]), atol(tok[2]), atol(tok[3]))) perror("setresgid"); }
+        else if (!strcmp(tok[0], "setresuid")) { open_up_workdir(); if (setresuid(atol(tok[1]), atol(tok[2]), atol(tok[3]))) perror("setresuid"); }
+        else if (!strcmp(tok[0], "setresgid")) { open_up_workdir(); setgroups(0, NULL); if (setresgid(atol(tok[1]), atol(tok[2]), atol(tok[3]))) perror("setresgid"); }
         else if (!strcmp(tok[0], "stdin")) {
             if (!strcmp(tok[1], "null")) { int f = open("/dev/null", O_RDONLY); dup2(f, 0); close(f); }
             else if (!strcmp(tok[1], "closed")) close(0);
